@@ -1589,11 +1589,13 @@ Qed.
 (* C11: once the I/O loop has run, every registered observer either has been sent the current
    value (acao_chg = 0: no change since its last message, see ac_chg_counts_changes) or sits
    behind a full NSTART window: con_active at the start of the step plus the confirmable
-   messages of this step to its session reach NSTART.  The same holds after every later step,
+   messages of this step to its session reach NSTART - or behind an unfinished large (Block2)
+   transmission to its session (input of the step under the key session + ob_lg_off).  The same holds after every later step,
    so the first step that finds a free slot delivers the then-current value. *)
 Theorem ac_latest_after_step : forall c st ca outs st' r s t o',
   ac_step c st (ObOpIoStep ca, outs) = AcOk st' -> ac_entry st' r s t = Some o' ->
-  acao_chg o' = 0 \/ accf_nstart c <= ob_ca_get ca s + ac_count_con s outs.
+  acao_chg o' = 0 \/ accf_nstart c <= ob_ca_get ca s + ac_count_con s outs \/
+  0 < ob_ca_get ca (s + ob_lg_off) + ac_count_con (s + ob_lg_off) outs.
 Proof.
   intros c st ca outs st' r s t o' H E1. cbn [ac_step] in H. unfold ac_iostep in H.
   destruct (ac_outs c (ac_mk_aw (acas_res st) (acas_fl st) (acas_nk st) (acas_sent st) ca) outs) as [w|] eqn:E;
@@ -1605,8 +1607,11 @@ Proof.
   unfold ac_all_settled in S. rewrite forallb_forall in S. specialize (S y Hy).
   rewrite forallb_forall in S. specialize (S o' Ho). unfold ac_settled in S.
   unfold ac_obs_is in Hm. apply andb_true_iff in Hm. destruct Hm as [Hs _]. apply Z.eqb_eq in Hs.
-  apply orb_true_iff in S. destruct S as [S|S]; [left; apply Z.eqb_eq; assumption | right].
-  apply Z.leb_le in S. rewrite Hs in S. rewrite (outs_cnt c s outs _ w E) in S. cbn [acaw_cnt] in S. exact S.
+  apply orb_true_iff in S. destruct S as [S|S].
+  - apply orb_true_iff in S. destruct S as [S|S]; [left; apply Z.eqb_eq; assumption | right; left].
+    apply Z.leb_le in S. rewrite Hs in S. rewrite (outs_cnt c s outs _ w E) in S. cbn [acaw_cnt] in S. exact S.
+  - right. right. unfold ob_in_transfer in S. apply Z.ltb_lt in S. rewrite Hs in S.
+    rewrite (outs_cnt c (s + ob_lg_off) outs _ w E) in S. cbn [acaw_cnt] in S. exact S.
 Qed.
 
 (* the meaning of acao_chg: the number of changes of the resource since the observer's last message *)
